@@ -595,9 +595,14 @@ impl<'a> Incoming<'a> {
 							problems.push("not_self_signed".into());
 						}
 						// currently valid (real time: tacd-sim has no virtual clock)
-						let now = openssl::asn1::Asn1Time::days_from_now(0).unwrap();
+						// The judged handshake happens milliseconds after start-up, a CA's seconds later:
+						// "currently valid" is demanded for now and for the next 10 s, which also keeps the
+						// verdict from depending on whether a second ticks between generation and judgement.
+						let unix = std::time::SystemTime::now().duration_since(std::time::UNIX_EPOCH).map(|d| d.as_secs()).unwrap_or(0);
+						let now = openssl::asn1::Asn1Time::from_unix(unix as _).unwrap();
+						let soon = openssl::asn1::Asn1Time::from_unix((unix + 10) as _).unwrap();
 						let nb_ok = cert.not_before().compare(&now).map(|o| o != std::cmp::Ordering::Greater).unwrap_or(false);
-						let na_ok = cert.not_after().compare(&now).map(|o| o != std::cmp::Ordering::Less).unwrap_or(false);
+						let na_ok = cert.not_after().compare(&soon).map(|o| o != std::cmp::Ordering::Less).unwrap_or(false);
 						if !nb_ok || !na_ok {
 							problems.push("not_currently_valid".into());
 						}
